@@ -51,6 +51,49 @@ def dump_core(prop):
     return p.stdout, "", time.time() - t0
 
 
+LIGHT_FLAGS = ["-Zunpretty=mir", "-Zmir-opt-level=1", "-Zinline-mir=no", "-C", "debug-assertions=off", "-C", "overflow-checks=on"]
+
+
+def dump_core_light(prop):
+    tdir = os.path.join(TARGET, "mir03")
+    for f in glob.glob(os.path.join(tdir, "debug", ".fingerprint", "crux_core-*")):
+        shutil.rmtree(f, ignore_errors=True)
+    cmd = ["cargo", "rustc", "--offline", "--lib", "--target-dir", tdir, "--"] + LIGHT_FLAGS
+    t0 = time.time()
+    p = subprocess.run(cmd, cwd=os.path.join(REPO, "crux_core"), env=env_offline({"RUSTUP_TOOLCHAIN": NIGHTLY}), capture_output=True, text=True, timeout=1800)
+    os.makedirs(os.path.join(LOGS, prop), exist_ok=True)
+    open(os.path.join(LOGS, prop, "mir-dump-crux_core-light.log"), "w").write(p.stderr)
+    if p.returncode != 0 or "\nfn " not in p.stdout:
+        return None, p.stderr[-600:], time.time() - t0
+    open(os.path.join(TARGET, "crux_core_light.mir"), "w").write(p.stdout)
+    return p.stdout, "", time.time() - t0
+
+
+def nested_host_facts(light):
+    """how commands host commands (then / and / all / map_*): every call of `host` goes to the provided method of
+    CommandStreamExt, whose body is `self.map(Ok).forward(CommandSink::new(effects, events))` and nothing else.
+    -> list of (fact, holds, detail)"""
+    facts = []
+    sites = re.findall(r"= ([^=\n]*?::host)\((?:move|copy)", light)
+    trait_form = [c for c in sites if re.search(r"as CommandStreamExt<", c)]
+    facts.append(("every nested command is hosted through CommandStreamExt::host (no other host function)", len(sites) >= 5 and len(trait_form) == len(sites),
+                  f"{len(sites)} call sites, {len(trait_form)} through the trait: " + "; ".join(sorted(set(c[-60:] for c in sites if c not in trait_form)))[:200]))
+    defs = re.findall(r"^fn (\S*host)\(", light, re.M)
+    facts.append(("CommandStreamExt::host is the only function named host", defs == ["CommandStreamExt::host"], str(defs)))
+    m = re.search(r"^fn CommandStreamExt::host\(_1: Self, _2: [^\n]*\n(.*?)\n}\n", light, re.M | re.S)
+    if not m:
+        facts.append(("CommandStreamExt::host has the expected signature", False, "not found"))
+        return facts
+    body = m.group(1)
+    calls = [c for c in re.findall(r"^\s+(_\d+) = ([^\n]*?) -> \[return", body, re.M) if "(cleanup)" not in c[1]]
+    shape = (len(calls) == 3 and re.match(r"<Self as StreamExt>::map::<.*Result::<.*>::Ok\}?>?\(copy _1, ", calls[0][1]) is not None
+             and re.match(r"CommandSink::<Effect, Event>::new\(move _\d+, move _\d+\)", calls[1][1]) is not None
+             and re.search(r"as StreamExt>::forward::<CommandSink<Effect, Event>>\(move " + calls[0][0] + r", move " + calls[1][0] + r"\)", calls[2][1]) is not None
+             and calls[2][0] == "_0")
+    facts.append(("host is exactly self.map(Ok).forward(CommandSink::new(effects, events))", bool(shape), " | ".join(c[1][:70] for c in calls)[:260]))
+    return facts
+
+
 class Contracts05:
     def __init__(self):
         self.used = set()
@@ -263,12 +306,30 @@ def run_property(prop, cfg, tier, known, only=None):
         kinds = {("loop-head" if isinstance(o, Stop) else tok(o)[:7]) for _, o, _ in paths if not isinstance(o, Panic)}
         if not {"loop-head", "Pending", "Ready(("} <= kinds and not failed:
             inconclusive(f"{unit}: expected paths to the loop head, to Pending and to Ready, found {sorted(kinds)}")
+        if not cfg.get("nested"):
+            light, lerr, ls = dump_core_light(prop)
+            if light is None:
+                inconclusive("non-inlined MIR dump of crux_core failed: " + lerr[-300:])
+            else:
+                nsample = {"unit": "nested_host", "what": "how then / and / all / map_* host a nested command", "queries": []}
+                for fact, holds, detail in nested_host_facts(light):
+                    res["obligations"] += 1
+                    res["queries"] += 1
+                    res["decided"] += 1
+                    nsample["queries"].append({"obligation": fact, "holds": holds, "detail": detail})
+                    if holds:
+                        res["discharged"] += 1
+                        witnesses.add("nested_host: " + fact)
+                    else:
+                        failed.append("nested_host: " + fact + " [" + detail[:120] + "]")
+                res["samples"].append(nsample)
+                say(f"  [{'nested_host':>22}] facts={len(nsample['queries'])}")
         runs = host_runs(binp)
         res["validated_inputs"] = len(runs)
         deviating = [(p_, r_) for p_, r_ in sorted(runs.items()) if r_.get("direct") != r_.get("core")]
         res["notes"].append(f"native differential run: {len(runs)} scripted programs inspected directly and hosted by a real Core: {len(deviating)} deviations")
-        if len(runs) < 6:
-            inconclusive("native host driver produced fewer than 6 programs")
+        if len(runs) < 10:
+            inconclusive("native host driver produced fewer than 10 programs")
         if failed:
             if deviating:
                 p_, r_ = deviating[0]
